@@ -59,7 +59,8 @@ def main():
             t0 = time.time()
             rc, out = run([os.path.join(HERE, "check"), p, "--tier", tier], cwd=HERE, env={"VERIF_REPO": scratch, "VERIF_EVIDENCE_DIR": os.path.join(scratch, ".evidence")}, timeout=3600)
             lines = [ln for ln in out.splitlines() if ln.startswith(("VIOLATION", "KNOWN-FINDING", "UNDECIDED", "MACHINERY-ERROR")) or ln.startswith(p + ":")]
-            rec["checks"][p] = dict(exit=rc, wall_s=round(time.time() - t0, 1), lines=[ln[:300] for ln in lines[:12]])
+            lines = [ln for ln in lines if not ln.startswith("VIOLATION")][:10] + [ln for ln in lines if ln.startswith("VIOLATION")][:12]
+            rec["checks"][p] = dict(exit=rc, wall_s=round(time.time() - t0, 1), lines=[ln[:300] for ln in lines])
         rec["detected"] = any(c["exit"] == 1 for c in rec["checks"].values())
         rec["caught_by"] = sorted({ln.split("obligation=")[-1].split()[0] if "obligation=" in ln else "bounded:" + ln.split("bounded=")[-1].split()[0]
                                    for c in rec["checks"].values() for ln in c["lines"] if ln.startswith("VIOLATION")})
